@@ -9,7 +9,7 @@ State of the implementation: a heap of flat buffers; every array object is (buff
 A selection `x[idx]` allocates a NEW buffer for its result (`_change_view` materialises the lazy view
 at once — commit "fix: selections own their data …"); `x[...]` / `x[()]` create a new object over
 the SAME buffer (numpy basic slice of the data), i.e. an alias; every other operation (ufunc,
-concatenate, sort, cumsum, diff) returns a fresh array; assignment writes into the buffer, so every
+concatenate, sort, cumsum, diff, unique) returns a fresh array; assignment writes into the buffer, so every
 alias sees it.
 
 Reference semantics (S): every array variable denotes a cell of a store of plain lists of rows;
@@ -29,6 +29,7 @@ inductive Stmt where
   | sort (src : Nat)                                   -- xk = x_src.sort(axis=-1)
   | cumsum (src : Nat)                                 -- xk = np.cumsum(x_src, axis=-1)
   | diff (src : Nat)                                   -- xk = np.diff(x_src, axis=-1)
+  | unique (src : Nat)                                 -- xk = np.unique(x_src, axis=-1)
   | assign (dst : Nat) (idx : Index) (v : Value Int)   -- x_dst[idx] = v
   | read (src : Nat)                                   -- observe x_src.tolist()
   | readIdx (src : Nat) (idx : Index)                  -- observe x_src[idx]
@@ -84,6 +85,8 @@ def step (s : State) : Stmt → State × Obs
   | .sort x => stepNew s ((s.arr x).map (sortRows (fun p q => decide (p ≤ q))))
   | .cumsum x => stepNew s ((s.arr x).map cumsumRows)
   | .diff x => stepNew s ((s.arr x).bind (fun a => (diffRows 1 a).map RA.ofRows))
+  | .unique x => stepNew s ((s.arr x).bind (fun a =>
+      (uniqueRows (fun (p q : Int) => decide (p ≤ q)) (fun p q => p != q) a).map (fun r => RA.ofRows r.1)))
   | .assign x idx v => match (s.arr x).bind (fun a => setitem a idx v), s.var x with
       | some a', some bv => ({ s with bufs := s.bufs.set bv.1 a'.data }, .made true)
       | _, _ => (s, .made false)
@@ -137,6 +140,8 @@ def stepS (s : Store) : Stmt → Store × Obs
   | .sort x => stepNewS s ((s.val x).map (fun r => r.map (fun row => row.mergeSort (fun p q => decide (p ≤ q)))))
   | .cumsum x => stepNewS s ((s.val x).map (fun r => r.map Spec.prefixSums))
   | .diff x => stepNewS s ((s.val x).map (fun r => r.map (Spec.diffN 1)))
+  | .unique x => stepNewS s ((s.val x).map (fun r => r.map (fun row =>
+      (Spec.dedupCounts (fun (p q : Int) => p != q) (row.mergeSort (fun p q => decide (p ≤ q)))).map (·.1))))
   | .assign x idx v => match (s.val x).bind (fun r => Py.setitem r idx v), s.var x with
       | some r', some c => ({ s with cells := s.cells.set c r' }, .made true)
       | _, _ => (s, .made false)
